@@ -183,6 +183,10 @@ def gen_teams(rng, stratum, beta, n=None, maxsize=8):
             m0 = rng.gauss(25, 8) * s
             sz = rng.randint(2, min(4, max(2, maxsize)))
             teams.append([(rng.gauss(25, 8) * s, sg) if rng.random() < 0.75 else (m0, rng.uniform(0.5, 9) * s) for _ in range(sz)])
+    elif stratum == "zero-mu":
+        # players whose mu is exactly 0.0 (a falsy number) — a perfectly ordinary rating on a scale centred at 0 — next to others
+        for _ in range(n):
+            teams.append([(0.0 if rng.random() < 0.5 else rng.gauss(0, 6) * s, rng.uniform(0.5, 9) * s) for _ in range(rng.randint(1, min(4, maxsize)))])
     elif stratum == "ragged-newcomers":
         # every player holds the same rating; the teams differ in size only
         v = rng.choice([(25.0 * s, 25.0 / 3.0 * s), (rng.gauss(25, 6) * s, rng.uniform(1, 9) * s)])
@@ -204,7 +208,7 @@ def gen_teams(rng, stratum, beta, n=None, maxsize=8):
 
 
 STRATA = ["typical", "typical", "wide", "corners", "mismatch", "identical", "equalsize", "floor", "lowedge", "lopsided", "bigsum", "newcomers", "integers",
-          "equal-ordinal", "ragged-newcomers", "inflated-twin", "same-sigma"]
+          "equal-ordinal", "ragged-newcomers", "inflated-twin", "same-sigma", "zero-mu"]
 
 
 def gen_config(rng, default_bias=0.4):
